@@ -324,14 +324,48 @@ Definition shots_ok (cfg : config) (w : list Z) (nshots : nat) (sh : list nat) :
   length sh = nshots /\
   Forall (fun s => s < 2 ^ ck cfg /\ nth s (born_vec (c_n cfg) (cQ cfg) w) 0%Z<> 0%Z) sh.
 
+Definition needs_shots (o : op) : bool :=
+  match o with Samples _ _ _ _ => true | Freqs _ _ _ _ => true | _ => false end.
+Definition sampled (r : nat) (h : list op) : Prop :=
+  exists o, In o h /\ target o = Some r /\ needs_shots o = true.
+
 (* "each result is a pure function of its own execution": for every result r of the history
-   there is one admissible list of shots that explains every output read from r *)
+   there is one list of shots that explains every output read from r, and it is admissible for
+   r's own execution (state, shot count) as soon as r was asked for samples or frequencies *)
 Definition standalone (cfg : config) (h : list op) : Prop :=
   let '(xs, mf) := run cfg (init cfg) h in
   forall r R, nth_error (m_results mf) r = Some R ->
-    exists sh, shots_ok cfg (r_w R) (r_nshots R) sh /\
+    exists sh, (sampled r h -> shots_ok cfg (r_w R) (r_nshots R) sh) /\
       forall i o x, nth_error h i = Some o -> nth_error xs i = Some x -> target o = Some r ->
                     explains cfg (r_w R) sh o x.
+
+(* ---- well-formed inputs: what the real code accepts *)
+(* at least one register, no qubit measured twice, all qubits in range *)
+Definition cfg_wf (cfg : config) : Prop :=
+  c_regs cfg <> [] /\ NoDup (cQ cfg) /\ (forall q, In q (cQ cfg) -> q < c_n cfg).
+(* an accessor can only be called on a result that exists; probabilities(qubits) raises for
+   repeated or out-of-range qubits *)
+Definition op_wf (cfg : config) (nres : nat) (o : op) : bool :=
+  match o with
+  | Exec _ _ => true
+  | Samples r _ _ _ => r <? nres
+  | Freqs r _ _ _ => r <? nres
+  | Probs r qs => (r <? nres) && nodupb qs && forallb (fun q => q <? c_n cfg) qs
+  | Final => true
+  end.
+Fixpoint hist_wf (cfg : config) (nres : nat) (h : list op) : bool :=
+  match h with
+  | [] => true
+  | o :: h' => op_wf cfg nres o &&
+               hist_wf cfg (match o with Exec _ _ => S nres | _ => nres end) h'
+  end.
+(* samples()/frequencies() are only ever called on the result r0 *)
+Definition single_reader (r0 : nat) (h : list op) : bool :=
+  forallb (fun o => match o with
+                    | Samples r _ _ _ => r =? r0
+                    | Freqs r _ _ _ => r =? r0
+                    | _ => true
+                    end) h.
 
 (* ---- decidable version of [explains], used by the harness as the Coq-side oracle for the
    outputs of the real implementation *)
